@@ -153,6 +153,10 @@ def run(ck):
             ck.verdict(ok, "1", "T4-guarded-by", reg, "add-is-deduplicated", why, "the token is appended unconditionally: every (re)registration of a source adds another entry, so its hooks run more than once per dispatch", site=reg.where(cs.bb))
 
     lifecycle_set_follows(ck, "2")
+    from props import common as _common, C06
+
+    _common.dispatch_infra(ck, "2")
+    _common.import_results(ck, C06, "2", "dispatch_events", "2")
 
     # ---- clause 3: protocol order --------------------------------------------------------------
     dl = DispatchLoop(ck, "3")
